@@ -14,7 +14,12 @@ func configure(g *gen) {
 		{Go: "Context", Lean: "Ctx", Params: "(γ : Type)", LeanT: "Ctx γ", Fields: []FieldSpec{
 			{"index", "int8", "index", tInt8},
 			{"writer", "responseWriter", "writer", T{"struct", "RW"}},
-		}, Extra: []string{"handlers : List Unit := []", "ghost : γ"}},
+			{"Req", "*http.Request", "req", T{"opaque", "Option Nat"}},           // nil or the identity of a request
+			{"Params", "Params", "params", T{"opaque", "Option GoRt.KV"}},        // nil or a map
+			{"data", "map[string]any", "data", T{"opaque", "Option GoRt.KV"}},    // nil or a map
+			{"Errors", "[]error", "errors", T{"opaque", "List Nat"}},             // the recorded errors (identities)
+			{"handlers", "HandlersChain", "handlers", T{"opaque", "List Unit"}}, // only the length matters here
+		}, Extra: []string{"respOwn : Bool := true", "ghost : γ"}},
 		// route_cache.go: container/list and the map are the abstract data types GoRt.LList (elements with
 		// identity, front first) and GoRt.HMap (key -> element)
 		{Go: "cachedRoutes", Lean: "CR", Params: "(ρ : Type)", LeanT: "CR ρ", Derive: "Inhabited", Fields: []FieldSpec{
@@ -33,6 +38,7 @@ func configure(g *gen) {
 	}
 	g.opaque["error"] = T{"opaque", "Bool"} // true = a non-nil error
 	g.opaque["http.ResponseWriter"] = T{"opaque", "Unit"}
+	g.opaque["http.Request"] = T{"opaque", "Option Nat"}
 	g.opaque["rux.Route"] = T{"opaque", "Option ρ"}  // *Route: nil or a route of the abstract type ρ
 	g.opaque["rux.Params"] = T{"opaque", "Option π"} // Params (a map): nil or a value of the abstract type π
 	g.globalExts = []Ext{
@@ -112,8 +118,14 @@ func configure(g *gen) {
 		Extra: []string{"(call : Nat → Int → Ctx γ → Except Panic (Option (Ctx γ)))"},
 		Exts: []Ext{
 			{Callee: "$.handlers[c.index]", Stmts: []string{"let some %t ← call fuel $.index $ | return none", "$ := %t"}, MayPanic: true},
-			{Callee: "$.handlers", Value: "$.handlers", T: T{"opaque", "List Unit"}},
 		}})
+	// Reset / Init: `respOwn` records that c.Resp points to the context's own writer again
+	resetExts := []Ext{
+		{Callee: "$.Resp=&$.writer", Effect: "{ $ with respOwn := true }"},
+		{Callee: "$.Resp=", Effect: "{ $ with respOwn := false }"},
+	}
+	add(FnSpec{Recv: "Context", Func: "Reset", Lean: "Ctx.Reset", Exts: resetExts})
+	add(FnSpec{Recv: "Context", Func: "Init", Lean: "Ctx.Init", Exts: resetExts})
 	add(FnSpec{Recv: "Context", Func: "SetStatus", Lean: "Ctx.SetStatus"})
 	add(FnSpec{Recv: "Context", Func: "StatusCode", Lean: "Ctx.StatusCode"})
 	add(FnSpec{Recv: "Context", Func: "Length", Lean: "Ctx.Length"})
